@@ -67,8 +67,11 @@ class Parser:
         self.tokens = tokens
         self.builtins = builtins
         self.pos = 0
-        assert tokens
-        self.eof = Token(TokenKind.EOI, "", -1, tokens[-1].grammar)
+        # An empty or comment-only grammar has no tokens (and no rules).
+        grammar = tokens[-1].grammar if tokens else ""
+        # The end-of-input token sits at the end of the text so that errors
+        # reported for it have a line and column.
+        self.eof = Token(TokenKind.EOI, "", len(grammar), grammar)
 
     def current(self) -> Token:
         try:
